@@ -654,8 +654,88 @@ def run_enum(spec, ctx):
 
 
 # ------------------------------------------------------------------------------- runner interface
+# --- a resource that names the same message class twice ("a second handler for the same class is refused") -------
+class SrvClsDup(ResourceBase):
+    @server_event
+    def first_a(self, client, seqnum: SeqNum, msg: VpC20MsgA):
+        self._rec("first_a", (client, seqnum, msg))
+
+    @server_event
+    def second_a(self, client, seqnum: SeqNum, msg: VpC20MsgA):
+        self._rec("second_a", (client, seqnum, msg))
+
+    @server_event
+    def on_b(self, client, seqnum: SeqNum, msg: VpC20MsgB):
+        self._rec("on_b", (client, seqnum, msg))
+
+
+class SrvClsDupInherited(SrvClsR0):
+    # the parent already handles A (on_a); the child adds another handler for A
+    @server_event
+    def child_a(self, client, seqnum: SeqNum, msg: VpC20MsgA):
+        self._rec("child_a", (client, seqnum, msg))
+
+
+class CliClsDup(ResourceBase):
+    @client_event
+    def first_a(self, seqnum: SeqNum, msg: VpC20MsgA):
+        self._rec("first_a", (seqnum, msg))
+
+    @client_event
+    def second_a(self, seqnum: SeqNum, msg: VpC20MsgA):
+        self._rec("second_a", (seqnum, msg))
+
+    @client_event
+    def on_b(self, seqnum: SeqNum, msg: VpC20MsgB):
+        self._rec("on_b", (seqnum, msg))
+
+
+def run_dupres(spec, ctx):
+    """register(resource) of a resource with two handlers for one class must be refused (it IS 'a second handler for the
+    same class'); whatever was installed before the refusal, a later dispatch calls at most one handler, once, with the
+    identical argument objects, and a clean resource for that class can only be registered if the class is free"""
+    from vp.props import c20_postponed as PP
+    cases = [("server", "cls", SrvClsDup), ("server", "cls-inherited", SrvClsDupInherited), ("server", "str", PP.SrvStrDup),
+             ("client", "cls", CliClsDup), ("client", "str", PP.CliStrDup)]
+    for kind, ann, cls in cases:
+        for pre in (False, True):
+            case = {"part": "dupres", "kind": kind, "ann": ann, "pre_dispatch": pre}
+            ctx.case(case)
+            sink = []
+            disp = ServerMessageDispatcher() if kind == "server" else ClientMessageDispatcher()
+            res = cls("dup", sink)
+            refused = False
+            try:
+                disp.register(res)
+            except Exception:
+                refused = True
+            if not refused:
+                ctx.violation("duplicate-accepted", "%s dispatcher accepted %s, which has two handlers for VpC20MsgA (%s annotations)" % (kind, cls.__name__, ann))
+            msg = PP.VpC20MsgA()
+            client = object()
+            seq = SeqNum(7)
+            for _ in range(2 if pre else 1):
+                del sink[:]
+                try:
+                    if kind == "server":
+                        disp.dispatch(client, seq, msg)
+                    else:
+                        disp.dispatch(seq, msg)
+                except DispatchError:
+                    if sink:
+                        ctx.violation("dispatcherror-after-call", "DispatchError after %d handler call(s)" % len(sink))
+                    continue
+                if len(sink) != 1:
+                    ctx.violation("multiple-handlers-invoked", "dispatch(VpC20MsgA) after a refused double registration made %d calls" % len(sink))
+                elif sink[0][2][-1] is not msg:
+                    ctx.violation("arguments-changed", "handler received a different message object")
+            ctx.nt(("dupres", kind, ann, pre))
+            ctx.label("dupres/%s/%s" % (kind, ann))
+    ctx.sample({"part": "dupres", "cases": [(k, a, c.__name__) for k, a, c in cases]})
+
+
 def plan(tier):
-    specs = []
+    specs = [{"part": "dupres"}]
     kinds = ("server", "client")
     if tier == "quick":
         for kind in kinds:
@@ -679,12 +759,16 @@ def run_shard(spec, ctx):
         run_sm(spec, ctx)
     elif spec["part"] == "enum":
         run_enum(spec, ctx)
+    elif spec["part"] == "dupres":
+        run_dupres(spec, ctx)
     else:
         raise RuntimeError("c20 harness: unknown part %r" % (spec,))
 
 
 def replay_case(case, ctx):
     ctx.case(case)
+    if case.get("part") == "dupres":
+        return run_dupres({}, ctx)
     if case.get("part") != "history":
         raise RuntimeError("c20 harness: unknown case %r" % (case,))
     run_history(ctx, case["kind"], case["ops"])
